@@ -675,9 +675,20 @@ def internal_names():
             tabs.add(m.group(1))
         for m in re.finditer(r"""["']([a-z_]+_)\{""", src):
             tabs.add(m.group(1).rstrip("_"))
+    # names that are DEFAULTS of builder arguments (e.g. concat_rows(id_column="source_name")): the library may use them itself
+    defaults = set()
+    try:
+        import inspect
+        import data_algebra.view_representations as vr
+        for _, fn in inspect.getmembers(vr.ViewRepresentation, inspect.isfunction):
+            for prm in inspect.signature(fn).parameters.values():
+                if isinstance(prm.default, str) and re.fullmatch(r"[A-Za-z_][A-Za-z0-9_]{2,}", prm.default):
+                    defaults.add(prm.default)
+    except Exception:  # noqa: BLE001
+        pass
     tabs |= {"extend", "project", "select_rows", "select_columns", "drop_columns", "order_rows", "rename_columns", "natural_join",
              "concat_rows", "convert_records", "table_reference", "join_source_left", "join_source_right", "concat_rows_a", "concat_rows_b"}
-    _INTERNAL = {"cols": sorted(cols), "suffixes": sorted(suffixes), "tabs": sorted(tabs)}
+    _INTERNAL = {"cols": sorted(cols), "suffixes": sorted(suffixes), "tabs": sorted(tabs), "defaults": sorted(defaults)}
     return _INTERNAL
 
 
@@ -700,6 +711,16 @@ def namings_for(case, k, rng):
         nm2 = relcase.Naming(cols=cm2, tabs={t: "tab_" + t for t in tabs})
         nm2.injected = None
         out.append(nm2)
+    # a STRUCTURAL column (join key, group / partition / order key) takes the name of a builder-argument default
+    keycols = sorted(_key_cols(case["prog"]) & set(allcols))
+    if keycols and pool.get("defaults"):
+        cm3 = {c: "u_" + c for c in allcols}
+        inj = pool["defaults"][int(relreplay.case_hash(case), 16) % len(pool["defaults"])]
+        cm3[keycols[int(relreplay.case_hash(case), 16) % len(keycols)]] = inj
+        if len(set(cm3.values())) == len(cm3):
+            nm3 = relcase.Naming(cols=cm3, tabs={t: "tab_" + t for t in tabs})
+            nm3.injected = inj
+            out.append(nm3)
     for _ in range(k):
         cm = {c: "u_" + c for c in allcols}
         tm = {t: "tab_" + t for t in tabs}
@@ -722,6 +743,23 @@ def namings_for(case, k, rng):
         nm.injected = inj
         out.append(nm)
     return out
+
+
+def _key_cols(prog):
+    """columns that play a structural role in some call: join keys, group / partition / order keys"""
+    acc = set()
+    for st in prog:
+        if st[0] in ("join", "joinc"):
+            for pr in st[2]:
+                acc.update(pr)
+        elif st[0] == "project":
+            acc.update(st[2])
+        elif st[0] == "wextend":
+            acc.update(st[2])
+            acc.update(st[3])
+        elif st[0] == "order_rows":
+            acc.update(st[1])
+    return acc
 
 
 def _expr_cols(e, acc):
